@@ -803,7 +803,7 @@ pub open spec fn own_entry(pd: ProcedureDeclaration, range: Range<usize>, table:
 //@end
 //~assume every named procedure declaration finds an entry under its name (entered by the table builder, or an earlier declaration of that name): the `expect` in semantic::analyze
 //~not_decided the outer iteration of semantic::analyze over the global declarations (iter_mut/filter_map/for_each) and that `range` is the declaration's absolute token range
-//~not_decided declaration and main rules (table/build.rs: HashMap, closures), call rules for the number of arguments and the callee lookup (symbol table), named-variable rules (symbol table), therefore "a valid program gets no diagnostics at all"
+//~not_decided syntax diagnostics (nom parser) and therefore "a valid program gets no diagnostics at all"; what the HashMap tables contain is an abstract map view (R15); the declaration and main rules are in unit `decls`
 //~not_decided termination of the trait-dispatched recursion (exec_allows_no_decreases_clause): partial correctness
 pub proof fn witness_rules(r: Range<usize>) {
     let e = SplError(r, sem(SemanticErrorMessage::OperatorDifferentTypes));
